@@ -15,25 +15,26 @@
 (* retrieval returns the right content; when the list comes back empty     *)
 (* every delayed path has been announced; the filter may die only while    *)
 (* answering for an object that cannot be obtained (and only if            *)
-(* lfs.skipdownloaderrors is off).                                         *)
+(* lfs.skipdownloaderrors is off); with smudging switched off (off) every  *)
+(* smudge returns its pointer.                                             *)
 (***************************************************************************)
 EXTENDS Integers, Sequences, FiniteSets, TLC, Json, IOUtils
 
 Trace == ndJsonDeserialize(IOEnv.TRACE)
 Oids == {"oL", "oS", "oS2", "oM"}
 
-VARIABLES l, loc, capDelay, skipErr, delayed, listed, retrieved, pathOid, dead, ended
-vars == <<l, loc, capDelay, skipErr, delayed, listed, retrieved, pathOid, dead, ended>>
+VARIABLES l, loc, capDelay, skipErr, off, delayed, listed, retrieved, pathOid, dead, ended
+vars == <<l, loc, capDelay, skipErr, off, delayed, listed, retrieved, pathOid, dead, ended>>
 E == Trace[l]
 Is(e) == l <= Len(Trace) /\ E.ev = e /\ l' = l + 1
 SetOf(s) == {s[i] : i \in DOMAIN s}
 
 Loc0 == [o \in Oids |-> CASE o = "oL" -> "local" [] o = "oM" -> "missing" [] OTHER -> "server"]
-Init == /\ l = 1 /\ loc = Loc0 /\ capDelay = FALSE /\ skipErr = FALSE /\ delayed = {} /\ listed = {} /\ retrieved = {}
+Init == /\ l = 1 /\ loc = Loc0 /\ capDelay = FALSE /\ skipErr = FALSE /\ off = "no" /\ delayed = {} /\ listed = {} /\ retrieved = {}
         /\ pathOid = <<>> /\ dead = FALSE /\ ended = TRUE
 
 Reset == /\ Is("reset") /\ ended                   \* the previous session must have ended properly
-         /\ loc' = Loc0 /\ capDelay' = E.capDelay /\ skipErr' = E.skipErr
+         /\ loc' = Loc0 /\ capDelay' = E.capDelay /\ skipErr' = E.skipErr /\ off' = E.off
          /\ delayed' = {} /\ listed' = {} /\ retrieved' = {} /\ pathOid' = <<>> /\ dead' = FALSE /\ ended' = FALSE
 
 WellFormed == E.framing = "ok"
@@ -42,27 +43,34 @@ Alive == ~dead /\ ~ended
 Clean == /\ Is("clean") /\ Alive /\ WellFormed
          /\ E.status = "success" /\ E.final \in {"", "success"}
          /\ E.out = (CASE E.what = "data" -> "pointer-of-input" [] E.what = "pointer" -> "same-as-input" [] OTHER -> "empty")
-         /\ UNCHANGED <<loc, capDelay, skipErr, delayed, listed, retrieved, pathOid, dead, ended>>
+         /\ UNCHANGED <<loc, capDelay, skipErr, off, delayed, listed, retrieved, pathOid, dead, ended>>
 
 \* an object that can be had: content now, or (if Git allowed it) delayed
 SmudgeAvailable ==
-  /\ Is("smudge") /\ Alive /\ WellFormed /\ loc[E.oid] \in {"local", "server"}
+  /\ Is("smudge") /\ off = "no" /\ Alive /\ WellFormed /\ loc[E.oid] \in {"local", "server"}
   /\ \/ /\ E.status = "success" /\ E.out = "content" /\ E.final \in {"", "success"}
         /\ loc' = [loc EXCEPT ![E.oid] = "local"] /\ UNCHANGED <<delayed, pathOid>>
      \/ /\ E.status = "delayed" /\ E.candelay /\ capDelay /\ loc[E.oid] = "server"
         /\ delayed' = delayed \cup {E.path} /\ pathOid' = pathOid @@ (E.path :> E.oid) /\ UNCHANGED loc
-  /\ UNCHANGED <<capDelay, skipErr, listed, retrieved, dead, ended>>
+  /\ UNCHANGED <<capDelay, skipErr, off, listed, retrieved, dead, ended>>
 
 \* an object that cannot be had: delayed (the failure surfaces later), the pointer passed through
 \* (skipdownloaderrors), or the filter dies
 SmudgeMissing ==
-  /\ Is("smudge") /\ Alive /\ loc[E.oid] = "missing"
+  /\ Is("smudge") /\ off = "no" /\ Alive /\ loc[E.oid] = "missing"
   /\ \/ /\ WellFormed /\ E.status = "delayed" /\ E.candelay /\ capDelay
         /\ delayed' = delayed \cup {E.path} /\ pathOid' = pathOid @@ (E.path :> E.oid) /\ UNCHANGED dead
      \/ /\ WellFormed /\ skipErr /\ E.status = "success" /\ E.out = "pointer" /\ UNCHANGED <<delayed, pathOid, dead>>
      \/ /\ WellFormed /\ E.status = "error" /\ UNCHANGED <<delayed, pathOid, dead>>
      \/ /\ ~skipErr /\ E.framing = "died" /\ dead' = TRUE /\ UNCHANGED <<delayed, pathOid>>
-  /\ UNCHANGED <<loc, capDelay, skipErr, listed, retrieved, ended>>
+  /\ UNCHANGED <<loc, capDelay, skipErr, off, listed, retrieved, ended>>
+
+\* smudging switched off (GIT_LFS_SKIP_SMUDGE, or the path is outside lfs.fetchinclude / inside
+\* lfs.fetchexclude): the pointer comes back as it went in, wherever the object is, never delayed
+SmudgeOff ==
+  /\ Is("smudge") /\ off # "no" /\ Alive /\ WellFormed
+  /\ E.status = "success" /\ E.out = "pointer" /\ E.final \in {"", "success"}
+  /\ UNCHANGED <<loc, capDelay, skipErr, off, delayed, listed, retrieved, pathOid, dead, ended>>
 
 List == /\ Is("list") /\ Alive /\ WellFormed /\ E.status = "success"
         /\ delayed # {}                                              \* Git only asks when something was delayed
@@ -72,7 +80,7 @@ List == /\ Is("list") /\ Alive /\ WellFormed /\ E.status = "success"
         /\ listed \subseteq retrieved                                \* Git fetched everything listed before asking again
         /\ (E.paths = <<>> => delayed \subseteq listed)              \* the list may only run dry when all were announced
         /\ listed' = listed \cup SetOf(E.paths)
-        /\ UNCHANGED <<loc, capDelay, skipErr, delayed, retrieved, pathOid, dead, ended>>
+        /\ UNCHANGED <<loc, capDelay, skipErr, off, delayed, retrieved, pathOid, dead, ended>>
 
 Retrieve == /\ Is("retrieve") /\ Alive /\ E.path \in listed \ retrieved
             /\ LET o == pathOid[E.path] IN
@@ -82,13 +90,13 @@ Retrieve == /\ Is("retrieve") /\ Alive /\ E.path \in listed \ retrieved
                \/ /\ loc[o] = "missing" /\ WellFormed /\ E.status = "error" /\ UNCHANGED dead
                \/ /\ loc[o] = "missing" /\ ~skipErr /\ E.framing = "died" /\ dead' = TRUE
             /\ retrieved' = retrieved \cup {E.path}
-            /\ UNCHANGED <<loc, capDelay, skipErr, delayed, listed, pathOid, ended>>
+            /\ UNCHANGED <<loc, capDelay, skipErr, off, delayed, listed, pathOid, ended>>
 
 End == /\ Is("end") /\ ~ended /\ ended' = TRUE
        /\ (~dead => (delayed \subseteq retrieved /\ E.exit = 0))     \* every delayed blob was announced and retrieved
-       /\ UNCHANGED <<loc, capDelay, skipErr, delayed, listed, retrieved, pathOid, dead>>
+       /\ UNCHANGED <<loc, capDelay, skipErr, off, delayed, listed, retrieved, pathOid, dead>>
 
-Next == Reset \/ Clean \/ SmudgeAvailable \/ SmudgeMissing \/ List \/ Retrieve \/ End
+Next == Reset \/ Clean \/ SmudgeAvailable \/ SmudgeMissing \/ SmudgeOff \/ List \/ Retrieve \/ End
 Spec == Init /\ [][Next]_vars
 Accepted == TLCGet("stats").diameter - 1 = Len(Trace)
 =============================================================================
